@@ -57,10 +57,12 @@ struct VecAdapter {
 	static constexpr int NOPS = 23;
 	struct State {
 		AllocState &as;
+		AllocState as_b; // b starts with its own allocator instance: a block must go back to the instance that handed it out
 		std::unique_ptr<V> a, b;
 		std::vector<int> ra, rb;
 		int next = 1;
-		State(AllocState &as_) : as(as_) { as.owner = "vector"; a.reset(new V(TrackedAlloc(&as))); b.reset(new V(TrackedAlloc(&as))); }
+		State(AllocState &as_) : as(as_) { as.owner = "vector"; as_b.owner = "vector (second allocator instance)"; a.reset(new V(TrackedAlloc(&as))); b.reset(new V(TrackedAlloc(&as_b))); }
+		~State() { a.reset(); b.reset(); expect_no_blocks(as_b, "after destroying both containers"); }
 	};
 	static void compare_one(CaseCtx &c, V &v, const std::vector<int> &r, const char *which) {
 		const V &cv = v;
@@ -103,7 +105,7 @@ struct VecAdapter {
 		case 10: { a.clear(); s.ra.clear(); c.op("clear"); break; }
 		case 11: { a = *s.b; s.ra = s.rb; c.op("a=b"); break; }
 		case 12: { *s.b = a; s.rb = s.ra; c.op("b=a"); break; }
-		case 13: { a = std::move(*s.b); s.ra = s.rb; s.rb.clear(); c.op("a=move(b)"); s.b.reset(new V(TrackedAlloc(&s.as))); break; }
+		case 13: { a = std::move(*s.b); s.ra = s.rb; s.rb.clear(); c.op("a=move(b)"); s.b.reset(new V(TrackedAlloc(&s.as_b))); break; }
 		case 14: { swap(a, *s.b); std::swap(s.ra, s.rb); c.op("swap(a,b)"); break; }
 		case 15: { s.b.reset(new V(a)); s.rb = s.ra; c.op("b=V(a)"); break; }
 		case 16: { std::unique_ptr<V> n(new V(std::move(a))); s.b = std::move(n); s.rb = s.ra; s.ra.clear(); s.a.reset(new V(TrackedAlloc(&s.as))); c.op("b=V(move(a))"); break; }
@@ -126,10 +128,12 @@ struct SmallVecAdapter {
 	static constexpr int NOPS = 18;
 	struct State {
 		AllocState &as;
+		AllocState as_b; // b starts with its own allocator instance: a block must go back to the instance that handed it out
 		std::unique_ptr<V> a, b;
 		std::vector<int> ra, rb;
 		int next = 1;
-		State(AllocState &as_) : as(as_) { as.owner = "small_vector"; a.reset(new V(TrackedAlloc(&as))); b.reset(new V(TrackedAlloc(&as))); }
+		State(AllocState &as_) : as(as_) { as.owner = "small_vector"; as_b.owner = "small_vector (second allocator instance)"; a.reset(new V(TrackedAlloc(&as))); b.reset(new V(TrackedAlloc(&as_b))); }
+		~State() { a.reset(); b.reset(); expect_no_blocks(as_b, "after destroying both containers"); }
 	};
 	static void compare_one(CaseCtx &c, V &v, const std::vector<int> &r, const char *which) {
 		const V &cv = v;
@@ -185,10 +189,12 @@ struct DynAdapter {
 	static constexpr int NOPS = 10;
 	struct State {
 		AllocState &as;
+		AllocState as_b; // b starts with its own allocator instance: a block must go back to the instance that handed it out
 		std::unique_ptr<V> a, b;
 		std::vector<int> ra, rb;
 		int next = 1;
-		State(AllocState &as_) : as(as_) { as.owner = "dyn_array"; a.reset(new V(TrackedAlloc(&as))); b.reset(new V(TrackedAlloc(&as))); }
+		State(AllocState &as_) : as(as_) { as.owner = "dyn_array"; as_b.owner = "dyn_array (second allocator instance)"; a.reset(new V(TrackedAlloc(&as))); b.reset(new V(TrackedAlloc(&as_b))); }
+		~State() { a.reset(); b.reset(); expect_no_blocks(as_b, "after destroying both containers"); }
 	};
 	static void compare_one(CaseCtx &c, V &v, const std::vector<int> &r, const char *which) {
 		const V &cv = v;
@@ -214,12 +220,12 @@ struct DynAdapter {
 		case 1: { for(size_t i = 0; i < s.ra.size(); i++) { a[i] = E(s.next); s.ra[i] = s.next++; } c.op("fill(a)"); break; }
 		case 2: { a = *s.b; s.ra = s.rb; c.op("a=b"); break; }
 		case 3: { *s.b = a; s.rb = s.ra; c.op("b=a"); break; }
-		case 4: { a = std::move(*s.b); s.ra = s.rb; s.rb.clear(); s.b.reset(new V(TrackedAlloc(&s.as))); c.op("a=move(b)"); break; }
+		case 4: { a = std::move(*s.b); s.ra = s.rb; s.rb.clear(); s.b.reset(new V(TrackedAlloc(&s.as_b))); c.op("a=move(b)"); break; }
 		case 5: { swap(a, *s.b); std::swap(s.ra, s.rb); c.op("swap(a,b)"); break; }
 		case 6: { s.b.reset(new V(a)); s.rb = s.ra; c.op("b=V(a)"); break; }
 		case 7: { std::unique_ptr<V> n(new V(std::move(a))); s.b = std::move(n); s.rb = s.ra; s.ra.clear(); s.a.reset(new V(TrackedAlloc(&s.as))); c.op("b=V(move(a))"); break; }
 		case 8: { V &ar = a; a = ar; c.op("a=a"); break; }
-		case 9: { size_t n = 1 + p % 40; s.b.reset(new V(n, TrackedAlloc(&s.as))); s.rb.assign(n, 0); for(size_t i = 0; i < n; i += 3) { (*s.b)[i] = E(s.next); s.rb[i] = s.next++; } c.op(strf("b=V(%zu)+fill", n)); break; }
+		case 9: { size_t n = 1 + p % 40; s.b.reset(new V(n, TrackedAlloc(&s.as_b))); s.rb.assign(n, 0); for(size_t i = 0; i < n; i += 3) { (*s.b)[i] = E(s.next); s.rb[i] = s.next++; } c.op(strf("b=V(%zu)+fill", n)); break; }
 		}
 	}
 };
